@@ -1206,3 +1206,11 @@ M('c15-rsync-args-alias-shared-list', 'C15', "        all_args = [\n            
 M('c15-local-time-folder-name', 'C15', "datetime.datetime.now(datetime.timezone.utc).strftime('%Y%m%d%H%M%S')", "datetime.datetime.now().strftime('%Y%m%d%H%M%S')", 'C15.R6', B)
 M('c15-day-first-folder-name', 'C15', "datetime.datetime.now(datetime.timezone.utc).strftime('%Y%m%d%H%M%S')", "datetime.datetime.now(datetime.timezone.utc).strftime('%d%m%Y%H%M%S')", 'C15.R6', B)
 T('c15-twin-utc-alias', 'C15', "datetime.datetime.now(datetime.timezone.utc).strftime('%Y%m%d%H%M%S')", "datetime.datetime.now(tz=datetime.timezone.utc).strftime('%Y%m%d%H%M%S')", B)
+
+# ------------------------------------------------------------------------------------------------ round 4 batch 4
+M('c16-prefilter-mutates-iterated-set', 'C16', "                for res in session.execute(stmt):\n                    existing_packed_hashkeys.append(res[0])\n        else:\n            sorted_hashkeys = sorted(loose_objects)", "                for res in session.execute(stmt):\n                    loose_objects.discard(res[0])\n        else:\n            sorted_hashkeys = sorted(loose_objects)", 'C16.R7')
+M('c16-funnel-batches-replace-per-pack-rows', 'C16', "                for res in session.execute(stmt):\n                    packs[res[0]].append(ObjQueryResults(res[1], res[2], res[3], res[4], res[5]))\n        else:\n            sorted_hashkeys = sorted(hashkeys_set)", "                for res in session.execute(stmt):\n                    packs[res[0]] = packs[res[0]][-0:] + [ObjQueryResults(res[1], res[2], res[3], res[4], res[5])]\n        else:\n            sorted_hashkeys = sorted(hashkeys_set)", 'C16.R1')
+M('c17-lazy-opener-exit-returns-true', 'C17', "        if self._fhandle is not None:\n            if not self._fhandle.closed:\n                self._fhandle.close()\n        self._fhandle = None", "        if self._fhandle is not None:\n            if not self._fhandle.closed:\n                self._fhandle.close()\n        self._fhandle = None\n        return True", 'C17.R5', U)
+M('c17-lock-pack-swallows', 'C17', "                with open(pack_file, 'ab') as pack_handle:\n                    yield pack_handle\n        finally:", "                with open(pack_file, 'ab') as pack_handle:\n                    yield pack_handle\n        except OSError:\n            pass\n        finally:", 'C17.R5')
+M('c18-dispose-only-on-request', 'C18', "    def _close_operation_session(self) -> None:\n        if self._operation_session is not None:\n            binding = self._operation_session.bind\n            self._operation_session.close()\n            if isinstance(binding, Engine):\n                binding.dispose()", "    def _close_operation_session(self, dispose_engine: bool = True) -> None:\n        if self._operation_session is not None:\n            binding = self._operation_session.bind\n            self._operation_session.close()\n            if dispose_engine and isinstance(binding, Engine):\n                binding.dispose()", 'C18.R1c')
+M('c18-loosen-through-whole-content', 'C18', "        with self.get_object_stream(hashkey) as stream:\n            # This always rewrites it as loose\n            written_hashkey = self.add_streamed_object(stream)", "        written_hashkey = self.add_object(self.get_object_content(hashkey))", 'C18.R5')
